@@ -16,8 +16,8 @@ from .c09 import same_values
 
 ID = 'C15'
 LEVELS = {
-    'quick': [{'name': 'L1-K2', 'K': 2, 'budget_s': 120}],
-    'thorough': [{'name': 'L1-K2', 'K': 2, 'budget_s': 600}, {'name': 'L2-K3', 'K': 3, 'budget_s': 2400}],
+    'quick': [{'name': 'L1-K2', 'K': 2, 'budget_s': 60}, {'name': 'L2-K3', 'K': 3, 'budget_s': 120}],
+    'thorough': [{'name': 'L3-K4', 'K': 4, 'budget_s': 2400}],
 }
 WITNESSES = ['two_targets_in_binding_order', 'cycle_delivery', 'detached_gets_nothing', 'delayed_event_delivered_once',
              'notify_not_forwarded', 'sender_consumes_internal_copy', 'detach_during_delivery']
